@@ -222,6 +222,10 @@ impl OExec {
             }
             OOp::Execute { operator, target, auth, abort } => {
                 let oi = pi(*operator);
+                // "everyone approves everything" would also grant the third party's authorisation whose
+                // absence is what makes this target fail; that case keeps the exact tree
+                let exact = AuthVar::Right;
+                let auth = if *auth == AuthVar::Everyone && matches!(target, Target::NeedsOtherAuth) { &exact } else { auth };
                 // the forwarded call
                 let (contract, fname, targs, log_entry, ret, target_ok): (Address, &str, SVec<Val>, Option<ScVal>, Option<ScVal>, bool) = match target {
                     Target::Echo { a, b, c, ret } => {
@@ -256,7 +260,14 @@ impl OExec {
                     Target::WrongArity => (self.target.clone(), "bump", SVec::new(&env), None, None, false),
                 };
                 let args: SVec<Val> = (self.p[oi].clone(), contract.clone(), Symbol::new(&env, fname), targs.clone()).into_val(&env);
-                let alt: SVec<Val> = (self.p[oi].clone(), contract.clone(), Symbol::new(&env, "noop"), SVec::<Val>::new(&env)).into_val(&env);
+                // "the right principal for other arguments": where the forwarded call has arguments, the operator
+                // signs the same target and function with the arguments left out; otherwise another function
+                let alt: SVec<Val> = if !targs.is_empty() {
+                    ctx.count("probe.operator_authorised_same_function_other_arguments");
+                    (self.p[oi].clone(), contract.clone(), Symbol::new(&env, fname), SVec::<Val>::new(&env)).into_val(&env)
+                } else {
+                    (self.p[oi].clone(), contract.clone(), Symbol::new(&env, "noop"), SVec::<Val>::new(&env)).into_val(&env)
+                };
                 let other = self.m.ops.iter().copied().find(|x| *x != oi).unwrap_or(STRANGER);
                 let c = AuthCtx { right: oi, former: None, other_role: other, counterparty: other, owner: self.m.owner, stranger: STRANGER };
                 if auth.is_fault() {
@@ -409,7 +420,7 @@ impl World for WorldO {
                     OOp::Execute {
                         operator: if rng.chance(5, 6) { rng.range(0, 4) as u8 } else { rng.below(NP as u64) as u8 },
                         target,
-                        auth: if fault { *rng.pick(&[AuthVar::OtherRole, AuthVar::Owner, AuthVar::Stranger, AuthVar::Nobody, AuthVar::RightOtherArgs]) } else { AuthVar::Right },
+                        auth: if fault { *rng.pick(&[AuthVar::OtherRole, AuthVar::Owner, AuthVar::Stranger, AuthVar::Nobody, AuthVar::RightOtherArgs]) } else if f_auth && rng.chance(1, 6) { AuthVar::Everyone } else { AuthVar::Right },
                         abort,
                     }
                 }
